@@ -246,10 +246,14 @@ def _t_ret(line, arg=None):
     return '%s(%s: %s)%s' % (m.group(1), arg, ty, m.group(3))
 
 
+_PL = r'\*?[\w\.\[\]]+'
+
+
 def _t_r8(line, arg=None):
-    """R8: destructuring assignment `(a, b) = e;` / `(a, b, c) = e;` -> `let verif_t = e; a = verif_t.0; b = verif_t.1; ..`"""
-    line = re.sub(r'^(\s*)\((\w+), (\w+), (\w+)\) = (.*);\s*$', r'\1let verif_t = \5; \2 = verif_t.0; \3 = verif_t.1; \4 = verif_t.2;', line)
-    return re.sub(r'^(\s*)\((\w+), (\w+)\) = (.*);\s*$', r'\1let verif_t = \4; \2 = verif_t.0; \3 = verif_t.1;', line)
+    """R8: destructuring assignment `(a, b) = e;` / `(a, b, c) = e;` -> `let verif_t = e; a = verif_t.0; b = verif_t.1; ..`
+    (a, b, c: variables or simple places such as `self.0[i]`)"""
+    line = re.sub(r'^(\s*)\((%s), (%s), (%s)\) = (.*);\s*$' % (_PL, _PL, _PL), r'\1let verif_t = \5; \2 = verif_t.0; \3 = verif_t.1; \4 = verif_t.2;', line)
+    return re.sub(r'^(\s*)\((%s), (%s)\) = (.*);\s*$' % (_PL, _PL), r'\1let verif_t = \4; \2 = verif_t.0; \3 = verif_t.1;', line)
 
 
 def _t_forname(line, arg=None):
@@ -464,10 +468,10 @@ def key(line):
         return 'for %s in %s..%s' % (m10.group(1), m10.group(2), m10.group(3))
     s = re.sub(r'^for (\w+) in verif_it: ', r'for \1 in ', s)
     s = re.sub(r'^for verif_it in ', 'for _ in ', s)
-    m8 = re.match(r'^let verif_t = (.*); (\w+) = verif_t\.0; (\w+) = verif_t\.1; (\w+) = verif_t\.2;$', s)
+    m8 = re.match(r'^let verif_t = (.*); (%s) = verif_t\.0; (%s) = verif_t\.1; (%s) = verif_t\.2;$' % (_PL, _PL, _PL), s)
     if m8:
         return '(%s, %s, %s) = %s;' % (m8.group(2), m8.group(3), m8.group(4), m8.group(1))
-    m8 = re.match(r'^let verif_t = (.*); (\w+) = verif_t\.0; (\w+) = verif_t\.1;$', s)
+    m8 = re.match(r'^let verif_t = (.*); (%s) = verif_t\.0; (%s) = verif_t\.1;$' % (_PL, _PL), s)
     if m8:
         return '(%s, %s) = %s;' % (m8.group(2), m8.group(3), m8.group(1))
     ms = re.match(r'^ol_sort\(&mut (\w+)\);$', s)
